@@ -166,10 +166,10 @@ G_Cast ==
      IN /\ Fresh(a) /\ CastOK(t, VT(a)) /\ (~IsVoid(t) => M_PROPSCALAR(M_exprtype(a.m)))
         \* `(void *)E` is a null pointer constant iff E is an integer constant expression with value 0 (6.3.2.3p3):
         \* constants whose value is not tracked, and pointer-typed null pointer constants, are not cast to void*
-        \* (`(_Bool)0` is an integer constant expression too, but gcc 12 does not accept it as a null pointer
-        \* constant: it is treated as "value not tracked")
+        \* (`(_Bool)0` and `(enum eu)0` are integer constant expressions too, but gcc 12 does not accept them as null
+        \* pointer constants: they are treated as "value not tracked")
         /\ (t = Ptr(Void) => (a.z # "unknown" /\ ~(IsPtr(VT(a)) /\ a.x.npc)))
-        /\ Add(Node("((" \o CTName(i) \o ")" \o a.e \o ")", XV(TypeOfCast(t)), MV(M_strip(t)), 1 + a.d, a.devs, a.ibf, IF t = Ptr(Void) /\ IsInt(VT(a)) THEN a.z ELSE IF IsInt(t) /\ t.k # "bool" /\ a.z = "zero" THEN "zero" ELSE IF a.z = "na" THEN "na" ELSE "unknown"))
+        /\ Add(Node("((" \o CTName(i) \o ")" \o a.e \o ")", XV(TypeOfCast(t)), MV(M_strip(t)), 1 + a.d, a.devs, a.ibf, IF t = Ptr(Void) /\ IsInt(VT(a)) THEN a.z ELSE IF t.k \in IntKinds \ {"bool"} /\ a.z = "zero" THEN "zero" ELSE IF a.z = "na" THEN "na" ELSE "unknown"))
 
 (* ---- comma ---------------------------------------------------------------------- *)
 G_Comma ==
